@@ -6,10 +6,15 @@ from meta import m
 from props import REGISTRY, rc_property
 
 
-def _with_switches(inner):
-    """rc_property plus one switch for sensitivity experiments: VERIF_SKIP_REPLAYS=1 runs the generated search without the
-    saved regression inputs (so a revert mutant has to be found by the generator, not by its own replay file)."""
+def _with_switches(make):
+    """rc_property plus (a) a per-tier shard watchdog (a defect that turns a loop into a 2^31-iteration loop must end as a
+    `hang` violation, not as an endless run) and (b) one switch for sensitivity experiments: VERIF_SKIP_REPLAYS=1 runs the
+    generated search without the saved regression inputs (so a revert mutant has to be found by the generator, not by its
+    own replay file)."""
+    inners = {"quick": make(3000), "thorough": make(43200)}
+
     def run(prop, tier, replay, t0):
+        inner = inners.get(tier, inners["quick"])
         if replay or not os.environ.get("VERIF_SKIP_REPLAYS"):
             return inner(prop, tier, replay, t0)
         saved = vlib.run_saved_replays
@@ -22,7 +27,7 @@ def _with_switches(inner):
     return run
 
 
-REGISTRY["C23"] = _with_switches(rc_property(
+REGISTRY["C23"] = _with_switches(lambda shard_timeout: rc_property(
     "C23", quick=(12, 40), thorough=(500, 60),
     rule="case = one object and a list of operations from a fixed menu of OCCA_FUNCTIONs: (a) occa::array<int|float|double> of "
          "length 0..70 (biased to 0,1,2 and tile*k-1, tile*k, tile*k+1, 2*tile*k+1) with setTileSize(s) / setTileSize(s,k), "
@@ -48,7 +53,7 @@ REGISTRY["C23"] = _with_switches(rc_property(
     extra_env={"OMP_NUM_THREADS": "3",
                "ASAN_OPTIONS": "detect_leaks=0:abort_on_error=0:detect_stack_use_after_return=0:handle_segv=1:"
                                "allocator_may_return_null=1:symbolize=1"},
-    timeout=14400))
+    timeout=shard_timeout))
 
 m("C23", "exploration",
   "Property-based differential test of the functional API against sequential std:: algorithms: generated arrays, ranges and "
